@@ -256,7 +256,7 @@ let lp_main guard path tablepath needpath =
   let canon = Buffer.create 4096 in
   let diverge id what m i = diverged := true; Printf.printf "DIVERGE %s %s model=[%s] impl=[%s]\n" id what m i in
   let oracle id sg txt = Printf.printf "ORACLE %s %s %s\n" id sg txt in
-  let trunc s = if String.length s > 300 then String.sub s 0 300 ^ "..." else s in
+  let trunc s = if String.length s > 300 && Sys.getenv_opt "VERIF_FULL" = None then String.sub s 0 300 ^ "..." else s in
   let flush_pending () = (match !pending with Some (_, _, f) -> f () | None -> ()); pending := None; obs := [] in
   let finish_case () =
     flush_pending ();
